@@ -84,6 +84,7 @@ type c15Oracle struct {
 
 	chains       []c15Chain // per chart level: the Chart.yaml / requirements.yaml contents in file order
 	ignoredFiles []string
+	validIgnored []string // rules file with a rejected line: what its valid rules exclude
 	term         string
 	in           *c15Interner
 }
@@ -248,6 +249,12 @@ type c15Rule struct {
 // c15ParseIgnore returns the rules of a .helmignore text (nil text = no file) followed by
 // the built-in rule for dot files in templates/; ok=false when a line is not a valid rule.
 func c15ParseIgnore(text []byte, present bool) (rules []c15Rule, badPatterns []string, ok bool) {
+	return c15ParseIgnoreMode(text, present, false)
+}
+
+// c15ParseIgnoreMode with lenient=true skips the lines parseRule rejects and returns the VALID rules
+// (ok=false still reports that there was such a line)
+func c15ParseIgnoreMode(text []byte, present bool, lenient bool) (rules []c15Rule, badPatterns []string, ok bool) {
 	ok = true
 	var lines []string
 	if present {
@@ -263,10 +270,18 @@ func c15ParseIgnore(text []byte, present bool) (rules []c15Rule, badPatterns []s
 			continue
 		}
 		if strings.Contains(r, "**") {
+			if lenient {
+				ok = false
+				continue
+			}
 			return nil, badPatterns, false
 		}
 		if _, err := filepath.Match(r, "abc"); err != nil {
 			badPatterns = append(badPatterns, r)
+			if lenient {
+				ok = false
+				continue
+			}
 			return nil, badPatterns, false
 		}
 		var ru c15Rule
@@ -337,6 +352,29 @@ func (o *c15Oracle) addIgnore(root string, tree []c15File) bool {
 		o.matchErr = append(o.matchErr, chartx.CoqStr(b))
 	}
 	if !ok {
+		// the rules file has a line parseRule rejects: loading must fail.  Should it succeed all the
+		// same, the VALID plain rules of the file still say what may not be loaded or packaged
+		// (files with a negated rule among the valid ones are left alone: a negation excludes what
+		// it does not match, so dropping a neighbour line could change its meaning)
+		valid, _, _ := c15ParseIgnoreMode(text, present, true)
+		for _, ru := range valid {
+			if ru.negate {
+				return true
+			}
+		}
+		nop := func(p, name string) {}
+		for _, f := range tree {
+			parts := strings.Split(f.Name, "/")
+			ig := c15RuleSaysIgnore(valid, f.Name, false, nop)
+			for i := 1; i < len(parts); i++ {
+				if c15RuleSaysIgnore(valid, strings.Join(parts[:i], "/"), true, nop) {
+					ig = true
+				}
+			}
+			if ig {
+				o.validIgnored = append(o.validIgnored, f.Name)
+			}
+		}
 		return true
 	}
 	seen := func(p, name string) {
